@@ -197,6 +197,23 @@ theorem C21_accuracy_rounding {fl : Rat → Rat} {u K : Rat} (h : RoundingLaw fl
   rw [hd]
   exact ns_accurate h hu hK hK8 hsmall hc.1 hc.2.1 hc.2.2
 
+/-- **C21 (non-negative) for realistic magnitudes, FULL strength over the rounding model.**  With the computed
+Euclidean part and both heights in [0, K], both adjustments in [-K, K] and K ≤ 10^8 s, the estimate is non-negative
+(no margin hypothesis, no overflow hypothesis: the bound on the magnitudes excludes the int64 overflow of
+`C21_nonneg_counterexample`, which needs adjustments of about 10^10 s). -/
+theorem C21_nonneg_rounding {fl : Rat → Rat} {u K : Rat} (h : RoundingLaw fl u) (hu : 8 * u ≤ 1)
+    (h9 : fl 1000000000 = 1000000000) (hK : 0 ≤ K) (hK8 : K ≤ 100000000)
+    (a b : Coordinate (Rnd fl)) (m ha hb ja jb : Rat)
+    (hm : magnitude (diffv a.vec b.vec) = R fl m)
+    (hha : a.height = R fl ha) (hhb : b.height = R fl hb)
+    (hja : a.adjustment = R fl ja) (hjb : b.adjustment = R fl jb)
+    (hmag : Magnitudes K m ha hb ja jb) : 0 ≤ distanceNs a b := by
+  have hd : distanceNs a b = ERat.toInt64 (.fin (fl (distRNew fl m ha hb ja jb * 1000000000))) := by
+    simp only [distanceNs, distSeconds_R h a b m ha hb ja jb hm hha hhb hja hjb, nanos_R h9, mul_R]
+    rfl
+  rw [hd]
+  exact ns_nonneg h hu hK hK8 (distRNew_range h hu hK hmag)
+
 /-- **The former shape** (before the repair 4a3f085) under the same rounding model: away from the threshold the two
 directions were within 1 ns of each other … -/
 theorem C21_symm_old_shape_1ns {fl : Rat → Rat} {u K : Rat} (h : RoundingLaw fl u) (hu : 8 * u ≤ 1)
@@ -229,6 +246,14 @@ example : RoundingLaw (fun x => x) 0 ∧ (8 : Rat) * 0 ≤ 1 ∧ (fun x : Rat =>
     ⟨by decide +kernel, by decide +kernel, by decide +kernel, by decide +kernel, by decide +kernel⟩,
     Or.inl (by decide +kernel)⟩
   rw [Rat.sub_self, Rat.abs_zero, Rat.zero_mul]; exact Rat.le_refl
+
+/-- non-vacuity of the coordinate-level hypotheses of `C21_accuracy_rounding` / `C21_nonneg_rounding`: the 3-4-5
+pair under `fl = id`: Euclidean part 5, heights 1 and 2, adjustments -1 and 3 -/
+example :
+    let a : Coordinate (Rnd (fun x => x)) := ⟨[R _ 3, R _ 0], R _ 1, R _ (-1), R _ 1⟩
+    let b : Coordinate (Rnd (fun x => x)) := ⟨[R _ 0, R _ 4], R _ 1, R _ 3, R _ 2⟩
+    magnitude (diffv a.vec b.vec) = R _ 5 ∧ distanceNs a b = 10000000000 ∧ distanceNs b a = 10000000000 := by
+  decide +kernel
 
 /-- and a genuinely rounding one: `fl0` with u = 10^-16 and K = 10^4 -/
 example : RoundingLaw fl0 (1 / 10000000000000000) ∧ fl0 1000000000 = 1000000000 ∧
